@@ -23,7 +23,7 @@ func (IntCodec[T]) append(data []byte, ptr unsafe.Pointer) []byte {
 // Read decodes a Int
 func (IntCodec[T]) Read(data []byte, ptr unsafe.Pointer, wt plenccore.WireType) (n int, err error) {
 	i, n := plenccore.ReadVarInt(data)
-	if n < 0 {
+	if n < 0 || (n == 0 && len(data) != 0) {
 		return 0, fmt.Errorf("corrupt var int")
 	}
 	*(*T)(ptr) = T(i)
@@ -84,7 +84,7 @@ func (UintCodec[T]) append(data []byte, ptr unsafe.Pointer) []byte {
 // Read decodes a Int
 func (UintCodec[T]) Read(data []byte, ptr unsafe.Pointer, wt plenccore.WireType) (n int, err error) {
 	i, n := plenccore.ReadVarUint(data)
-	if n < 0 {
+	if n < 0 || (n == 0 && len(data) != 0) {
 		return 0, fmt.Errorf("corrupt var int")
 	}
 	*(*T)(ptr) = T(i)
